@@ -478,7 +478,7 @@ class SimDevice:
                 hello += self.cfg.get("noise_name", self.name).encode() + b"\x00" + self.mac.encode() + b"\x00"
             if self.cfg.get("noise_empty_hello"):
                 hello = b""
-            self._emit_raw(conn, wire.noise_outer(hello), {"name": "#noise_hello", "kind": "hello"})
+            self._emit_raw(conn, wire.noise_outer(hello), {"name": "#noise_hello", "kind": "hello"}, latency=self.cfg.get("noise_hello_latency"))
             return
         if st["phase"] == "handshake":
             if not fr or fr[0] != 0:
@@ -496,7 +496,7 @@ class SimDevice:
             except wire.NoiseAuthError as exc:
                 w.rec("dev_noise_reject", conn=conn.cid, err=str(exc))
                 text = str(exc).encode()
-                self._emit_raw(conn, wire.noise_outer(b"\x01" + text), {"name": "#noise_error", "kind": "hs_error"})
+                self._emit_raw(conn, wire.noise_outer(b"\x01" + text), {"name": "#noise_error", "kind": "hs_error"}, latency=self.cfg.get("noise_hs_latency"))
                 st["phase"] = "dead"
                 if self.cfg.get("close_after_reject", True):
                     conn.device_close("fin")
@@ -509,7 +509,7 @@ class SimDevice:
             st["noise"] = resp
             st["phase"] = "data"
             st["recv_n"] = 0
-            self._emit_raw(conn, wire.noise_outer(b"\x00" + msg2), {"name": "#noise_handshake", "kind": "handshake"})
+            self._emit_raw(conn, wire.noise_outer(b"\x00" + msg2), {"name": "#noise_handshake", "kind": "handshake"}, latency=self.cfg.get("noise_hs_latency"))
             w.rec("dev_noise_ready", conn=conn.cid)
             for act in self.cfg.get("on_handshake", []):
                 self._run_action(conn, act)
@@ -703,6 +703,12 @@ class SimDevice:
                     emitted = [(b[:n], meta)] if n else []
                     if not n:
                         meta["dropped"] = True
+                elif kind == "shorten":
+                    # a WELL-FORMED frame whose body is cut to its first k bytes (outer length rewritten): k = 0 is the
+                    # empty frame `01 00 00`; it cannot authenticate (the tag alone is 16 bytes)
+                    body = b[3 : 3 + t["len"]]
+                    meta["tamper_len"] = len(body)
+                    emitted = [(b[:1] + len(body).to_bytes(2, "big") + body, meta)]
                 elif kind == "drop":
                     emitted = []
                     meta["dropped"] = True
